@@ -100,6 +100,8 @@ FinalClauses ==
      <<"skipped-absent",      "P", SetOf(T.ret.order) \cap Skip = {}>>,
      <<"exported-present",    "P", Exported \subseteq SetOf(T.ret.order)>>,
      <<"advance-rounded",     "P", \A n \in Exported : AdvOK(n)>>,
+     \* a 'CFF ' table declares each glyph's advance itself (width operand / defaultWidthX): it is the hmtx advance
+     <<"cff-width-equals-advance", "P", Has(T.ret, "cffAdv") => \A n \in DOMAIN T.ret.cffAdv : n \in DOMAIN T.ret.adv /\ T.ret.cffAdv[n] = T.ret.adv[n]>>,
      <<"outline-equals-source", "P", T.flavor = "cff" => \A n \in Exported : CffGlyphOK(n)>>,
      <<"tt-glyph",            "P", T.flavor = "tt" => \A n \in Exported : TTGlyphOK(n)>>,
      <<"tt-references",       "P", T.flavor = "tt" => TTRefsOK>>,
